@@ -71,6 +71,7 @@ def run(pid, tier, replay=None):
         mod = importlib.import_module(f'rules.{pid.lower()}')
         chk = core.Check(pid, tier, repo)
         mod.run(chk)
+        chk.raise_deferred()
         if not chk.obs:
             raise core.AnalysisError('no obligation was generated')
         if tier == 'thorough' and not replay:
